@@ -2,11 +2,13 @@ import Driver.Util
 import Driver.Suites.Blocks
 import Driver.Suites.Blocklist
 import Driver.Suites.AddrList
+import Driver.Suites.Admission
 /-! Table of suites known to the driver.  One line per suite (merge=union friendly). -/
 namespace Driver
 def registry : List Suite := [
   Suites.Blocks.suite,
   Suites.Blocklist.suite,
   Suites.AddrList.suite,
+  Suites.Admission.suite,
 ]
 end Driver
